@@ -113,6 +113,22 @@ class SlotsOnly:
         self.a, self._b, self.c = a, 1, c
 
 
+class SlotsArgs:
+    """Slots-only, nothing else to learn the fields from (no annotations, no named constructor parameters)."""
+
+    __slots__ = ("x", "y")
+
+    @classmethod
+    def of(cls, x, y):
+        o = cls()  # no constructor parameters at all: a variadic signature would be (mis)read as fields, which is documented behaviour
+        o.x, o.y = x, y
+        return o
+
+
+class SlotsArgsChild(SlotsArgs):
+    """Declares no __slots__ of its own (so it has a __dict__), its fields live in the inherited slots."""
+
+
 class VarsOnly:
     def __init__(self):
         self._private = 1
@@ -186,7 +202,7 @@ def make(rng):
               "CustomMapping": lambda x: CustomMapping(dict(x)), "defaultdict": lambda x: collections.defaultdict(list, x)}[kind]
         return kind, (lambda: mk(d)), list(d.items()), list(d.values())
     if r < 0.40:
-        which = rng.choice(["DC", "DCPrivate", "DCSlots", "NT", "NT", "NT1", "NT3", "UNT2", "UNT2", "UNT1", "UNT3", "Plain", "PlainChild", "PlainChildRedeclares", "DCChild", "SlotsOnly", "VarsOnly"])
+        which = rng.choice(["DC", "DCPrivate", "DCSlots", "NT", "NT", "NT1", "NT3", "UNT2", "UNT2", "UNT1", "UNT3", "Plain", "PlainChild", "PlainChildRedeclares", "DCChild", "SlotsOnly", "SlotsArgs", "SlotsArgsChild", "VarsOnly"])
         a, b, c = atom(rng), atom(rng), atom(rng)
         if which == "DC":
             return which, (lambda: DC(1, a, b)), [("a", 1), ("b", a), ("c", b)], [1, a, b]
@@ -210,6 +226,10 @@ def make(rng):
             return which, (lambda: NT3(a, b, c)), [("p", a), ("q", b), ("r", c)], [a, b, c]
         if which == "Plain":
             return which, (lambda: Plain(a, b)), [("a", a), ("b", b)], [a, b]
+        if which == "SlotsArgs":
+            return which, (lambda: SlotsArgs.of(a, b)), [("x", a), ("y", b)], [a, b]
+        if which == "SlotsArgsChild":
+            return which, (lambda: SlotsArgsChild.of(a, b)), [("x", a), ("y", b)], [a, b]
         if which == "PlainChild":
             return which, (lambda: PlainChild(a, b, c)), [("a", a), ("b", b), ("c", c)], [a, b, c]
         if which == "PlainChildRedeclares":
